@@ -16,10 +16,12 @@ export function* generate({ tier, seed }) {
     const e = encodeEmits(rng, names, out);
     const order = rng.pick(['before', 'before', 'after', 'mixed']);
     const local = rng.bool(0.2) ? rng.pick(['fnDecl', 'arrow', 'fnExpr', 'iife', 'objMethod', 'classMethod']) : false;
-    const second = rng.pick(['ident', 'object', 'array', 'none', 'plainAnnotation', 'identNoAnn']);
+    const second = rng.pick(['ident', 'object', 'array', 'none', 'plainAnnotation', 'identNoAnn', 'identTwoArgs']);
     const fnForm = rng.pick(['arrow', 'function']);
     let p2, expectEmits = true;
     if (second === 'ident') p2 = `, ctx: SetupContext<${e}>`;
+    // the second type argument of SetupContext describes the slots
+    else if (second === 'identTwoArgs') p2 = `, ctx: SetupContext<${e}, ${rng.pick(['{}', 'Record<string, any>', '{ default: () => any }'])}>`;
     else if (second === 'object') p2 = `, { emit, slots }: SetupContext<${e}>`;
     else if (second === 'array') p2 = `, [first]: SetupContext<${e}>`;
     else if (second === 'none') { p2 = ''; expectEmits = false; }
@@ -28,8 +30,8 @@ export function* generate({ tier, seed }) {
     const propsT = rng.bool(0.5) ? '{ a?: string }' : '{}';
     const setup = fnForm === 'arrow' ? `(props: ${propsT}${p2}) => () => null` : `function (props: ${propsT}${p2}) { return () => null; }`;
     // options the user wrote by hand (none of them is `emits`): deriving emits does not depend on them
-    const userOpts = rng.bool(0.3) ? rng.pick(['{ props: ["modelValue"] }', '{ props: { a: String }, inheritAttrs: false }', '{ name: "Named" }', '{ inheritAttrs: false }', '{ props: {} }', '{ "props": ["x"], name: "N" }']) : null;
-    const src = assembleModule(rng, { decls: out.decls, call: `defineComponent(${setup}${userOpts ? ', ' + userOpts : ''})`, imports: ['defineComponent', 'SetupContext'], order, local });
+    const userOpts = rng.bool(0.3) ? rng.pick(['{ name: "Dlg", ...SHARED }', '{ ...SHARED }', '{ ...SHARED, inheritAttrs: true }', '{ props: ["modelValue"] }', '{ props: { a: String }, inheritAttrs: false }', '{ name: "Named" }', '{ inheritAttrs: false }', '{ props: {} }', '{ "props": ["x"], name: "N" }']) : null;
+    const src = assembleModule(rng, { decls: out.decls, call: `defineComponent(${setup}${userOpts ? ', ' + userOpts : ''})`, imports: ['defineComponent', 'SetupContext'], order, local, extra: userOpts && userOpts.includes('SHARED') ? 'const SHARED = { inheritAttrs: false };' : '' });
     yield {
       gid: `C19-${i}`, src, syntax: 'tsx', spec: { names: expectEmits ? names : null },
       feature: `${out.ops.join('+')}|k=${k}|${order}|${local || 'module'}|${second}|${fnForm}|${names.some((x) => /[:-]/.test(x)) ? 'punct' : 'plain'}|${userOpts ? 'userOpts:' + userOpts.replace(/[^a-z]/gi, '').slice(0, 12) : 'noOpts'}`,
